@@ -27,7 +27,7 @@ ASSUMPTIONS = [
 ]
 DEPTH = {"quick": 3, "thorough": 4}
 T0 = 1_700_000_000.0
-MODS = [("same", 1.0), ("same", 3600.0), ("other", 0.0), ("other", 1.0), ("other", 3600.0), ("touch", 1.0), ("touch", 3600.0), ("restore", 1.0)]
+MODS = [("same", 1.0), ("same", 3600.0), ("other", 0.0), ("other", 1.0), ("other", 86400.0), ("touch", 1.0), ("touch", 172800.0), ("restore", 1.0)]  # (a second, an hour, exactly one day, exactly two days later)
 FORMS = ["etag", "lm", "both", "list", "weak", "weak-list", "weak-list-nospace", "star", "both-reversed", "head:etag", "head:both-reversed", "head:star", "list-20", "weak-list-40", "list-latin1", "list-empty-member", "list-leading-comma", "weak-list-empty-members"]
 
 
@@ -192,6 +192,39 @@ class World:
         return SV.run_asgi(app, scope, SV.to_messages(req))
 
 
+def _cancelled_request(self, key, cut):
+    from ..core.vloop import Session
+    iface, kind = key
+    path = "/" + self.fname if kind == "Files" or not self.fname.endswith(".html") else "/" + self.fname[:-len(".html")]
+    req = SV.AReq(path=path)
+    with Session() as s:
+        async def receive():
+            import asyncio
+            await asyncio.Future()
+
+        async def send(m):
+            pass
+        task = s.loop.create_task(self.apps[key](SV.to_scope(req), receive, send))
+        steps = 0
+        while not task.done() and steps < 200:
+            s.loop.prune()
+            if not s.loop._ready:
+                break
+            s.loop.step_ready()
+            steps += 1
+            if steps == cut:
+                task.cancel()
+        # let the cancellation run its course
+        for _ in range(50):
+            s.loop.prune()
+            if not s.loop._ready:
+                break
+            s.loop.step_ready()
+
+
+World.cancelled_request = _cancelled_request
+
+
 def validator_headers(form, v):
     et, lm = v["etag"], v["lm"]
     form = form.split(":")[-1]
@@ -252,6 +285,12 @@ def run_history(hist, r, collect_only=False, variant=0):
                 kind, dt = MODS[mi]
                 w.modify(kind, dt)
             state = (w.version, 0 if getattr(w, "restored", False) else getattr(w, "touch_count", 0), w.mtime, w.size)
+            # requests that never finish: the server cancels them (client gone) at their first, second, third suspension - on the
+            # ASGI applications, whether or not a battery follows; whatever they leave behind must not speak for the file later
+            for key in w.apps:
+                if key[0] == "asgi":
+                    for cut in (1, 2, 3):
+                        w.cancelled_request(key, cut)
             if not battery:
                 continue
             for key in w.apps:
